@@ -2,6 +2,7 @@
 from core import strip, is_field, key_mentions, order_ge
 from facts import AnalysisBroken
 from rules import (check_init, nodeset, ev, Unevaluable, forced_edges, atom_from, reach, atomic_ops, ret_const, is_var_load)
+from props import c01
 import stale
 
 EXPLANATION = (
@@ -26,6 +27,9 @@ def waiters_of(fn, arg, param="semaphore"):
 
 def run(ctx):
     P = ctx.prog()
+    c01.core_dependency(ctx, P, "core.dep", ('fiber_manager_wait_in_mpmc_queue', 'fiber_manager_wake_from_mpmc_queue', 'fiber_semaphore_wait', 'fiber_semaphore_post', 'fiber_semaphore_post_internal'),
+                        "the semaphore's sleep/wake path (wait_in_mpmc_queue / wake_from_mpmc_queue)",
+                        'a unit handed to a waiter that never runs is lost')
     f = P.fn("fiber_semaphore_wait")
     o = ctx.ob("wait", f, "one atomic fetch-sub of 1 (acq_rel or stronger); returns at once exactly when the old value was >= 1, otherwise parks "
                "on this semaphore's waiters through fiber_manager_wait_in_mpmc_queue",
